@@ -60,10 +60,10 @@ def exc_spec_name(e: dict[str, Any]) -> str:
 
 
 def monitor_case(case: dict[str, Any], impl: list[dict[str, Any]]) -> list[tuple[str, str]]:
-    from .gen_kernel import resolve_reraise, undefer
+    from .gen_kernel import realias, resolve_reraise, undefer
 
     sh = Shadow()
-    ops = undefer(resolve_reraise(case["ops"]))
+    ops = undefer(realias(resolve_reraise(case["ops"])))
     for i, (op, r) in enumerate(zip(ops, impl)):
         try:
             step(sh, i, op, r)
